@@ -171,7 +171,8 @@ def window(s, a, maxrow):
     ecols = _or_default(a.cols, maxcol - a.trim_left)
     erows = _or_default(a.rows, maxrow - a.trim_top)
     cols_ok = either(both(maxcol == 0, a.trim_left == 0, ecols == 0), both(0 <= a.trim_left, a.trim_left < maxcol, ecols > 0, a.trim_left + ecols <= maxcol))
-    rows_ok = both(0 <= a.trim_top, a.trim_top < maxrow, erows > 0, a.trim_top + erows <= maxrow)
+    # (likewise a canvas without rows: its only window is the whole of it -- /repo fix: commit 8e74a20)
+    rows_ok = either(both(maxrow == 0, a.trim_top == 0, erows == 0), both(0 <= a.trim_top, a.trim_top < maxrow, erows > 0, a.trim_top + erows <= maxrow))
     return ecols, erows, both(cols_ok, rows_ok)
 
 
@@ -326,7 +327,7 @@ def _text_content_on_raise(old, s, a, exc):
     yield "only-for-a-window-that-is-empty-or-not-inside-the-canvas", neg(ok)
     # the whole of a canvas is a window of it, also when the canvas has no rows (as it is when it has no columns,
     # /repo aa85944): nothing to yield is not an error
-    # FAILS-ON-TREE: list(TextCanvas([]).content()) -> ValueError(0)   (likewise TextCanvas([], maxcol=3); .text, str();
+    # (failed on the tree until the zero-row fix of TextCanvas.content: list(TextCanvas([]).content()) -> ValueError(0)  (likewise TextCanvas([], maxcol=3); .text, str();
     #                CompositeCanvas(TextCanvas([])).content() yields no rows and does not raise)
     yield "not-for-the-whole-of-the-canvas", neg(both(a.trim_left == 0, a.trim_top == 0, _falsy(a.cols), _falsy(a.rows)))
     yield "canvas-not-modified", _unchanged_canvas(old, s)
@@ -565,7 +566,7 @@ def _all_unchanged(result, nrows, ncols):
 class text_content_delta:
     self_shape = TEXTCANVAS
     params = dict(other=Opaque("LeafCanvas"))
-    raises = (ValueError,)
+    raises = ()  # (the whole of the canvas is always a window of it, also of a canvas without rows or columns)
     setup = _setup_delta(_setup_rows((0, 1, 2)))
     requires = canvas_wf
 
@@ -672,7 +673,7 @@ class canvas_text:
     """Canvas.text of a TEXT canvas (the property is inherited by every canvas; a text canvas of 0 .. 2 spelled-out rows here)."""
     self_shape = TEXTCANVAS
     params = {}
-    raises = (ValueError,)
+    raises = ()  # (the whole of the canvas is always a window of it, also of a canvas without rows or columns)
     requires = canvas_wf
 
     def ensures(old, s, a, result):
